@@ -196,6 +196,13 @@ def corruptions():
         ('mnemonic-is-directive-keyword', rename(['instructions'], 'mov', 'org')),
         ('mnemonic-is-data-keyword', rename(['instructions'], 'bset', 'byte')),
         ('mnemonic-is-keyword-uppercase', rename(['instructions'], 'bset', 'ZERO')),
+        ('mnemonic-is-function-keyword-lowercase', rename(['instructions'], 'bset', 'lsb')),
+        ('mnemonic-is-function-keyword', rename(['instructions'], 'bset', 'LSB')),
+        ('mnemonic-is-byte-function-keyword', rename(['instructions'], 'bset', 'byte3')),
+        ('mnemonic-is-byte-function-keyword-mixed-case', rename(['instructions'], 'bset', 'Byte9')),
+        ('macro-named-like-function-keyword', rename(['macros'], 'mov2', 'byte0')),
+        ('macro-named-like-keyword-uppercase', rename(['macros'], 'mov2', 'ENDIF')),
+        ('register-is-function-keyword', setv(['general', 'registers'], ['ra', 'rb', 'sp', 'ix', 'LSB'])),
         ('macro-named-like-keyword', rename(['macros'], 'mov2', 'fill')),
         ('register-is-keyword', setv(['general', 'registers'], ['ra', 'rb', 'sp', 'ix', 'zero'])),
         ('macro-name-equals-instruction-name', rename(['macros'], 'mov2', 'mov')),
